@@ -39,6 +39,7 @@ func recvProp(c recvCase) common.Result {
 		return common.Fail("harness", "cluster: %v", err)
 	}
 	defer cl.Close()
+	cl.topUp() // the receiver may become leader through what it receives: its proposer must find client commands
 	sub := cl.Stacks[0]
 	creator := cl.Stacks[c.Creator-1]
 	svc := sub.Srv.VerifService()
